@@ -97,7 +97,7 @@ func runC18(t *testing.T, tier string) int {
 	complete := true
 	perScen := map[string]any{}
 	var samples []any
-	deadline := t0.Add(budget(tier))
+	deadline := report.RealNow().Add(schedBudget(tier))
 	synctest.Test(t, func(t *testing.T) {
 		for _, sc := range scens {
 			sc := sc
@@ -139,7 +139,7 @@ func runC18(t *testing.T, tier string) int {
 				synctest.Wait()
 				return r.Points, r.Choices, verdict, err
 			}
-			res, err := sched.Explore(exec, sc.bound, 0, func() bool { return time.Now().After(deadline) })
+			res, err := sched.Explore(exec, sc.bound, 0, func() bool { return report.RealNow().After(deadline) })
 			if err != nil {
 				fmt.Fprintln(os.Stderr, "C18 harness:", err)
 				os.Exit(2)
